@@ -17,6 +17,9 @@ func init() {
 	externals["strings.TrimRight"] = func(ex *Exec, st *State, a []Value, x *ssa.Call) Value {
 		return App("strings.TrimRight", SStr, a[0].(*Term), a[1].(*Term))
 	}
+	externals["strings.Trim"] = func(ex *Exec, st *State, a []Value, x *ssa.Call) Value {
+		return App("strings.Trim", SStr, a[0].(*Term), a[1].(*Term))
+	}
 	externals["errors.Newf"] = func(ex *Exec, st *State, a []Value, x *ssa.Call) Value {
 		return freshErr(ex, "errors.Newf")
 	}
